@@ -1,4 +1,4 @@
-CONSTANTS MaxNow = 24  MaxLen = 12  Dedupe = 10  WeakC = ""
+CONSTANTS MaxNow = 80  MaxLen = 9  MaxEdits = 2  Dedupe = 10  VD = 15  WeakC = ""
 SPECIFICATION Spec
 VIEW view
-INVARIANTS TypeOK Inv_C07_ConsolidatableJustified
+INVARIANTS TypeOK Inv_C07_ConsolidatableJustified Inv_C07_DecisionJustified
